@@ -187,6 +187,11 @@ func (askSelf *AskDef[T, R]) AskChannel(target ActorHandle[interface{}]) chan R 
 
 // Reply Receiver Reply
 func (askSelf *AskDef[T, R]) Reply(response R) {
+	defer func() {
+		// The asker may have given up (AskOnceWithTimeout) and closed the channel:
+		// a late reply is discarded instead of panicking inside the actor goroutine.
+		recover()
+	}()
 	askSelf.ch <- response
 }
 
